@@ -154,6 +154,9 @@ struct Driver {
   // Convergence (C02): the same build again, twice, in a forked world.
   void CheckConvergence(const InvRecord& r) {
     if (!r.ok() || !r.quiet() || r.plan.dry || !r.plan.tool.empty()) return;
+    // a record appended behind a crash-torn log tail is merged with it and may
+    // look out of date once more (C08 allows exactly that)
+    if (r.log_torn_tail_before) return;
     // documented always-dirty case: an input-less phony whose file is missing
     std::vector<std::string> targets = w.EffectiveTargets(r.plan);
     std::set<int> cl = w.Closure(targets, true);
@@ -253,12 +256,144 @@ struct Driver {
     }
   }
 
+  // Kill / torn write / failing syscall: the position is chosen from a
+  // fault-free probe of the same invocation in a forked world.
+  void PlanProcessFaults(InvPlan& p) {
+    bool want_crash = Pm(prof.pm_crash), want_torn = Pm(prof.pm_torn), want_io = Pm(prof.pm_io_error);
+    if (!want_crash && !want_torn && !want_io) return;
+    size_t mark = tape.Mark(p.stream);
+    World f = w.Fork();
+    f.label = "probe";
+    RunStats scratch;
+    std::vector<Violation> vs;
+    f.viol = &vs;
+    f.stats = &scratch;
+    InvPlan pp = p;
+    pp.record_sys = true;
+    InvRecord pr = f.RunInvocation(pp);
+    tape.Rewind(p.stream, mark);
+    const auto& kinds = pr.res.sys_kinds;
+    if (kinds.empty()) return;
+    auto pick = [&](const char* set) -> int64_t {
+      std::vector<int64_t> c;
+      for (auto& kv : kinds) if (!set || strchr(set, kv.second)) c.push_back(kv.first);
+      if (c.empty()) return -1;
+      return c[H((uint32_t)c.size())];
+    };
+    if (want_torn) {
+      int64_t k = pick("w");
+      if (k >= 0) { p.fp.torn_at = k; p.fp.torn_keep = H(1 << 20); }
+    } else if (want_crash) {
+      // half of the kills land in the persistence steps (log writes, unlink, rename, truncate)
+      p.fp.crash_at = H(2) ? pick("wnutcO") : pick(nullptr);
+      if (p.fp.crash_at < 0) p.fp.crash_at = pick(nullptr);
+    }
+    if (want_io) {
+      int64_t k = pick("sOmuntPSwrh");
+      if (k >= 0) p.fp.io_errors[k] = 5;
+    }
+    p.fp.orphans_finish = H(2) == 1;
+    if (p.fp.crash_at >= 0 || p.fp.torn_at >= 0) {
+      // C07 assumes commands replace their outputs atomically when the whole
+      // tree is killed: no half-written outputs in an invocation that is killed
+      for (auto& f : p.fail) f.second.second = 0;
+      if (p.on_signal % 100 == 1) p.on_signal -= 1;
+    }
+  }
+
+  // C07: after an interrupted or killed build the next one must succeed, be
+  // clean-equal, and redo what was not durably recorded.
+  void CheckRecovery(const InvRecord& r) {
+    bool crashed = r.res.end == ProcResult::kCrashed;
+    bool intr = r.interrupted && (r.res.out.find("interrupted by user") != std::string::npos || r.res.err.find("interrupted by user") != std::string::npos);
+    if (!crashed && !intr) return;
+    if (r.plan.dry || !r.plan.tool.empty() || r.external_edit) return;
+    for (auto& kv : r.res.fired) if (kv.first.compare(0, 9, "io_error_") == 0) return;
+    World f = w.Fork();
+    f.label = "recovery";
+    InvPlan p;
+    p.stream = ST_FORK0 + fork_index++;
+    p.j = 1 + (int)tape.Choice(p.stream, 4);
+    p.k = 0;
+    InvRecord r2 = f.RunInvocation(p);
+    rr.stats.n["recovery_builds"]++;
+    Note("  [recovery build]" + ResultText(r2));
+    if (getenv("SIM_SHOW_OUTPUT")) Note("  stdout: " + r2.res.out + "\n  stderr: " + r2.res.err);
+    rr.stats.nontrivial["C07"] = true;
+    if (!r2.ok()) {
+      bool regen_hit = false;
+      for (auto& x : r.spawns) if (w.sc.stmts[x.stmt].regen && (x.killed || !x.reap_seq)) regen_hit = true;
+      if (regen_hit && intr && r2.res.err.find("loading 'build.ninja'") != std::string::npos) {
+        w.Report("C07", "regen_manifest_deleted", "the interrupted ninja deleted build.ninja, which its manifest generator had just rewritten; the next invocation cannot start: " + r2.res.err.substr(0, 120));
+        return;
+      }
+      w.Report("C07", "recovery_failed", "the build after " + std::string(crashed ? "a killed" : "an interrupted") + " ninja exited " + std::to_string(r2.res.exit_code) + " " + r2.res.end_detail + ": " + r2.res.err.substr(0, 200) + r2.res.out.substr(0, 200));
+      return;
+    }
+    // only the documented recovery messages may appear
+    std::string e = r2.res.err;
+    size_t pos = 0;
+    while ((pos = e.find("ninja: ", pos)) != std::string::npos) {
+      size_t nl = e.find('\n', pos);
+      std::string line = e.substr(pos, nl == std::string::npos ? std::string::npos : nl - pos);
+      pos += 7;
+      if (line.find("ninja: warning: premature end of file; recovering") == 0) continue;
+      if (line.find("starting over") != std::string::npos) continue;
+      if (line.find("ninja explain:") == 0) continue;
+      if (line.find("ninja: error") == 0 || line.find("ninja: warning") == 0 || line.find("ninja: fatal") == 0)
+        w.Report("C07", "recovery_failed", "the build after a killed/interrupted ninja printed: " + line);
+    }
+    f.viol = w.viol;
+    f.CheckContent(r2, "C07");
+    // redone rather than trusted
+    std::set<int> ran2;
+    for (auto& x : r2.spawns) ran2.insert(x.stmt);
+    std::set<int> needed = f.Closure(f.EffectiveTargets(p), true);
+    for (auto& x : r.spawns) {
+      const Stmt& s = w.sc.stmts[x.stmt];
+      if (s.generator || s.regen || r.epochs > 1 || !needed.count(x.stmt)) continue;
+      // behind a torn tail left by an earlier crash a complete record is merged
+      // with the fragment; whether it counts is C08's business, not this check's
+      if (r.log_torn_tail_before) continue;
+      bool recorded = true;
+      for (auto& o : x.outs) {
+        auto a = r.log_after.last.find(o), b = r.log_before.last.find(o);
+        if (a == r.log_after.last.end()) { recorded = false; break; }
+        if (b != r.log_before.last.end() && b->second.mtime == a->second.mtime && b->second.hash == a->second.hash && b->second.end == a->second.end && b->second.start == a->second.start) { recorded = false; break; }
+      }
+      if ((s.deps_kind == 2 || s.deps_kind == 3) && recorded) {
+        auto a = r.deps_after.last.find(x.outs[0]), b = r.deps_before.last.find(x.outs[0]);
+        if (a == r.deps_after.last.end()) recorded = false;
+        else if (b != r.deps_before.last.end() && b->second.mtime == a->second.mtime && b->second.deps == a->second.deps) {
+          // an unchanged deps record is not written again: only missing counts
+        }
+      }
+      // K11 pattern: the statement was out of date only because an output was
+      // missing; the unrecorded run re-created it and the old record still matches
+      bool was_missing = false, old_record_matches = true;
+      for (auto& o : x.outs) {
+        if (!x.pre_outs.count(o)) was_missing = true;
+        auto b = r.log_before.last.find(o);
+        if (b == r.log_before.last.end() || b->second.hash != NinjaCommandHash(w.sc.CommandLine(s) + (w.sc.RspContent(s).empty() ? "" : ";rspfile=" + w.sc.RspContent(s)))) old_record_matches = false;
+      }
+      if (!recorded && !ran2.count(x.stmt) && was_missing && old_record_matches) {
+        w.Report("C07", "trusted_recreated_output", "statement " + std::to_string(x.stmt) + " was out of date only because an output was missing; the " + (crashed ? "killed" : "interrupted") + " ninja's command re-created it without a log record and the next build trusted it");
+        continue;
+      }
+      // (whether an older, still adequate record justifies trusting the outputs
+      // is the dirtiness question itself; wrongly trusted *content* is caught by
+      // the clean-build comparison above)
+    }
+  }
+
   void DoBuild() {
     InvPlan p = MakeBuildPlan();
+    PlanProcessFaults(p);
     Note(PlanText(p));
     InvRecord r = w.RunInvocation(p);
     Note(ResultText(r));
     if (getenv("SIM_SHOW_OUTPUT")) Note("  stdout: " + r.res.out + "\n  stderr: " + r.res.err);
+    if (getenv("SIM_DUMP_LOG")) { std::string lg; w.k.ReadFile(w.sc.LogDir() + ".ninja_log", &lg); Note("  .ninja_log:\n" + lg); }
     w.CheckAll(r);
     {
       int ncmd = 0;
@@ -274,6 +409,7 @@ struct Driver {
     if (rr.stats.n["j_full"] + rr.stats.n["pool_full"] + rr.stats.n["tokens_full"] > 0) rr.stats.nontrivial["C06"] = true;
     if (prof.check_convergence) CheckConvergence(r);
     CheckFailureFollowUp(r);
+    CheckRecovery(r);
   }
 
   void DoEdit(bool content) {
